@@ -188,7 +188,8 @@ def judge(case, r, k, viol, obs, fault_free=False, reasons=None):
                     openk[key] = t
                 elif op == 'del' and key in openk:
                     t_open = openk.pop(key)
-                    last = max([a for a in acts if a <= t + 1e-9] + [t_open])
+                    # frames the node emits in the very pass that releases the entry (its time-out abort) are not 'activity'
+                    last = max([a for a in acts if a <= t - 1e-4] + [t_open])
                     wait = t - last
                     obs['timeouts_measured'] += 1
                     bound = 1.25
